@@ -26,12 +26,33 @@ CHECKS = {
                  "row (key = symbol + deviation class) in known_findings.json, so a different wrong factor is a new violation.",
         "note": NOTE + " Additional trusted data: 26 SI derived atoms and 18 SI prefixes (sa/unitgrammar.py).",
     },
+    "C07": {
+        "technique": "who-may-write enumeration over Quantity slots; provenance/ownership abstract interpretation (two container levels, "
+                     "function summaries to a fixpoint) over every mutation sink of the library; CFG must-raise / must-return; "
+                     "cache-key completeness by def-use terms; read-set comparison of __eq__/__hash__",
+        "level": "Holds for all operation histories because it is decided from which code may write a Quantity's state: every store to a "
+                 "slot is in the constructor (memo slots in their getters), every mutator must-raises, no mutation sink of the library "
+                 "reaches a composing map at the map or inner-list level (shallow copies are told apart from deep ones), captured maps "
+                 "are fresh, ObtainQuantity interns every constructed object under a key mentioning all identity inputs, hash reads a "
+                 "subset of eq, copy hooks return self, pickle layout agrees between writer and reader.",
+        "note": NOTE,
+    },
     "C14": {
         "technique": "who-may-write enumeration of registry mutation sites via def-use terms; check-before-write and dominance on CFGs; "
                      "exhaustive table lint over the interpreted registration log",
         "level": "History clauses hold for all registration histories because they are decided from which code may write which state and "
                  "in what order relative to checks (single writers, no raise after a write, duplicate test dominates the write, base "
                  "moved to front); shipped-table clauses are exhaustive over 191 quantity types, 328 categories, 1548 units.",
+        "note": NOTE,
+    },
+    "C15": {
+        "technique": "transitive read/write effect summaries over the resolved call graph (from provenance sinks); escape+sink analysis of "
+                     "registry-owned containers; memo-coherence rule (fields read on a memo's fill path vs. writers that must clear it)",
+        "level": "For every non-registration function of the library (all public queries, arithmetic, construction) the transitive write "
+                 "set on registry state is empty; no registry-owned container that escapes through a getter reaches a mutation sink; "
+                 "each memo table is cleared by every registration method that writes a field its fill path reads (two interning "
+                 "incoherences that cannot be repaired without changing identity semantics are recorded findings). Covers every history "
+                 "of queries, failures and registrations at once.",
         "note": NOTE,
     },
     "C16": {
